@@ -133,3 +133,27 @@ FORMULAS = {
 
 def formulas_of(prop):
     return FORMULAS.get(prop, [])
+
+
+# ---------------------------------------------------------------- MANIFEST texts (bin/genmanifest)
+TECH_SYS = "explicit TLA+ spec model-checked with TLC + trace validation of the real controllers (TLC-generated schedules replayed, log-driven TLA+ monitor)"
+NOTE_SYS = ("Trusted: TLC, the Json/IOUtils community modules, Go runtime, client-go generated clients/listers, the harness's SimAPI semantics and the "
+            "projection/concretisation maps. Bounded: small constants for the exhaustive design check; finitely many schedules on the real code.")
+
+LEVEL_TEXT = {
+    "C05": "TLC exhaustively checks C05_Admission (and the counter invariants) on the JobQueue design spec (2 Jobs, all policies, lag 2, write faults, foreign writes, deletion, restart); the same formula is then evaluated by TLC on every step of traces recorded from the real activejobstore + jobqueuecontroller, driven by TLC-generated schedules replayed step-by-step and by a seeded random scheduler with fault and crash injection, each run ending with a drain and an admission probe.",
+    "C06": "TLC checks FIFO, never-refused, refused-only-at-limit and no-stuck-at-quiescence on the JobQueue design spec and evaluates the same formulas on traces of the real per-config reconciler (TLC schedules replayed + seeded random runs, drain to quiescence, livelock detection).",
+    "C07": "TLC checks never-before-startAfter (state and step form) and due-Jobs-start-at-quiescence for owned and independent Jobs on the design spec and on recorded traces of the real reconcilers; the drain moves the clock past every startAfter and fires the armed deferred re-syncs only.",
+    "C15": "TLC checks on the JobQueue design spec (with the jobconfigcontroller pass as JSyncBegin/JStepWrite actions, conflicts and write faults) that at quiescence the status lists exactly the active and queued Jobs and that lastScheduled/lastExecuted are monotone and cover every Job a successful pass saw; the same formulas are evaluated by TLC on traces of the real jobconfigcontroller running next to the real queue controller (TLC schedules replayed, seeded random runs with Job removal, faults and restart).",
+    "C08": "TLC exhaustively checks one-live-task-per-index, gap-free bounded retry numbering, retry delay and the creation gates on the JobLife design spec (reconcile pass split at every API call, independent Job/Pod cache lag, kubelet, user kill/delete, faults, crash) and evaluates the same formulas at every Pod creation of traces recorded from the real jobcontroller + podtaskexecutor (TLC behaviours replayed with state comparison, seeded random runs, drain).",
+    "C09": "TLC checks on the JobLife design spec, with a fault or crash placed after every API call of a pass, that recorded tasks are kept, never marked lost/finished while their Pod is alive, foreign Pods are never adopted and end in AdmissionError, and that at quiescence every owned Pod is listed; the same formulas are evaluated on traces of the real controller under injected write faults (rejected and applied-but-error), crash/restart and cache lag.",
+    "C10": "TLC checks on the JobLife design spec and on recorded traces of the real controller that a Success/Failed result is implied by the kubelet ground truth under the completion strategy, that recorded task results equal the Pods' real outcomes, that no owned task is alive when the Job first becomes finished, and that at the drained end every decided Job has reached its result and every undecided one has a live attempt.",
+    "C11": "TLC evaluates status coherence (one condition, state/phase/counters consistent with tasks) on every logged Job version and monotonicity (startTime, finished, result, finish time, task timestamps, createdTasks) on every pair of consecutive versions, on the design spec and on all traces recorded from the real controller (user edits after finish are the only exemption, tracked by a ghost).",
+    "C12": "TLC checks that every controller-issued delete of a live task is justified (kill time reached, pending timeout reached in the pass's view, Job deleting, strategy decided in truth), that force deletion respects its timeout and the forbid switch, and that at the drained end kill and pending-timeout histories have completed; on the design spec exhaustively and on traces of the real controller with every kubelet behaviour.",
+    "C13": "TLC checks that a Job leaves the API only when no task named in its status exists, that a TTL delete is never earlier than finish+TTL (job value or configured default) and only for decided Jobs, and that deletion/TTL complete at the drained end; on the JobLife design spec and on traces of the real controller.",
+}
+DESIGN_REF = {p: "DESIGN.md section 4 (%s)" % p for p in ["C%02d" % i for i in range(1, 21)]}
+TECHNIQUE = {}
+LEVEL_NOTE = {}
+ENGINE_TEXT = "TLA+ specs in spec/ checked by TLC; Go harness in harness/ runs the real controllers in a deterministic simulated world; spec/trace monitors judge recorded traces"
+NOT_APPLICABLE = {}
